@@ -20,7 +20,6 @@ import (
 
 	"pgregory.net/rapid"
 
-	"verif/internal/ev"
 )
 
 type tkind int
@@ -300,7 +299,8 @@ func (g *gen) paths(e string, t *ty, want *ty, ref, konst bool, depth int, out *
 				*out = append(*out, path{fmt.Sprintf("%s[%s]", e, g.dynIndex(t.n)), false})
 			}
 		}
-		if want.k == kVec && want.sc == t.sc && !(want.n == t.n && depth == 0) {
+		ptrArgSwz := strings.HasPrefix(e, "(*arg") && excludedQuiet("c09-swizzle-of-pointer-param-without-load")
+		if want.k == kVec && want.sc == t.sc && !(want.n == t.n && depth == 0) && !ptrArgSwz {
 			var sb strings.Builder
 			for i := 0; i < want.n; i++ {
 				sb.WriteByte(swz[g.pick("swz", t.n)])
@@ -934,7 +934,7 @@ func (g *gen) matExpr(t *ty, d int) expr {
 		return expr{paren(g.genExpr(t, d-1)) + " " + op + " " + paren(g.genExpr(t, d-1)), false}
 	case 3:
 		g.feat("mat-scalar-mul")
-		s := g.operand(tF32, d-1, !ev.Excluded("c09-abstract-literal-times-matrix"))
+		s := g.operand(tF32, d-1, !excluded("c09-abstract-literal-times-matrix"))
 		m := paren(g.genExpr(t, d-1))
 		if g.chance("swap", 50) {
 			return expr{s.s + " * " + m, false}
